@@ -71,7 +71,8 @@ R2 = {
   dict(n="", what="the 'no' default of error_logging is no longer written by the reset: a value set by an earlier file survives into a cycle whose file is silent about it",
        needs="two cycles in one process, first with error_logging = yes, second without the key", checks="C11", missed=False),
   dict(n="2", what="syslog facility/level value clean-up uses a shared static scratch buffer", needs="two threads parsing the config at the same time", checks="C09", missed=True,
-       strengthened="C09's TSan/stress configurations now carry syslog_facility/syslog_level/ident lines and a devlog priority oracle"),
+       strengthened="C09's TSan/stress configurations now carry syslog_facility/syslog_level/ident lines and a devlog priority oracle", neutralised=True,
+       note="caught by C09 (`tsan:data-race@configfile.c`, `stress:devlog-frame-differs`) until fix 6e1c772 put the config file parse under the registry mutex: since then two threads never parse at the same time, the change cannot manifest any more and its own demonstration passes on the patched build - correctly no alarm"),
  ],
  "C09": [
   dict(n="", what="pthread_once replaced by a plain 'initialized' flag for the registry mutex", needs="the first two exec calls of the process overlap", checks="C09", missed=False),
@@ -185,7 +186,7 @@ def meta():
             r = res.get(key, {})
             v = ver.get(key, {})
             m["changes"].append(dict(patch="patch%s.diff" % it["n"], demo="demo%s.sh" % it["n"], breaks_property=prop, what=it["what"], needs=it["needs"],
-                                     missed_at_first=it["missed"], strengthened=it.get("strengthened"), note=it.get("note"), not_claimed=it.get("not_claimed", False),
+                                     missed_at_first=it["missed"], strengthened=it.get("strengthened"), note=it.get("note"), not_claimed=it.get("not_claimed", False), neutralised_by_later_fix=it.get("neutralised", False),
                                      confirmed=v,
                                      ran="tools/run_seeded.py <patch> --checks %s --copy  (patch applied to a scratch worktree of /repo HEAD, checks run with VERIF_REPO pointing there; same as git -C /repo apply / check / git -C /repo checkout -- .)" % it["checks"],
                                      caught_by={c: x["keys"][:6] for c, x in r.items() if x["exit"] == 1},
@@ -203,6 +204,8 @@ def table():
             key = "%s/round2/patch%s.diff" % (prop, it["n"])
             r = res.get(key, {})
             caught = ", ".join("%s (`%s`)" % (c, x["keys"][0].split(":", 1)[1] if x["keys"] else "?") for c, x in r.items() if x["exit"] == 1) or "—"
+            if it.get("neutralised"):
+                caught = "— (no longer manifests)"
             hist = "caught as built" if not it["missed"] else ("**not claimed** → " if it.get("not_claimed") else "**missed at first** → ") + it.get("strengthened", "")
             if it.get("note"):
                 hist += " (" + it["note"] + ")"
